@@ -289,15 +289,21 @@ func c04Scenarios(tier string) []engine.Scenario {
 		}
 	}
 	var out []engine.Scenario
+	if tier == "thorough" {
+		// tiny durations: the abstract state space is small enough to run to a fixpoint
+		for _, a := range []int{1, 2, 3} {
+			grid = append(grid, c04cfg{a, 2 * time.Second, 3 * time.Second}, c04cfg{a, 3 * time.Second, 2 * time.Second})
+		}
+	}
 	for _, cfg := range grid {
 		cfg := cfg
 		for _, who := range []string{"otp", "totp"} {
 			who := who
 			depth := 5
 			if tier == "thorough" {
-				depth = 7
+				depth = 6
 			}
-			small := cfg.w <= time.Minute && cfg.d <= time.Minute
+			small := cfg.w <= 3*time.Second && cfg.d <= 3*time.Second
 			if small && tier == "thorough" {
 				depth = 0 // run to a fixpoint: every history over this menu, of any length
 			}
